@@ -1,6 +1,7 @@
 import RadicaleProofs.Quote
 import RadicaleProofs.Sanitize
 import RadicaleProofs.UrlSplit
+import RadicaleProofs.Netloc
 /-
   C18 — every name the server hands out or accepts round-trips through URL encoding.
   Property theorems only; helper lemmas live in RadicaleProofs.
@@ -102,6 +103,63 @@ example : (∀ c ∈ "127.0.0.1:5232".toList, isDelim c = false ∧ removed c = 
     ("/u/c/a;b+c.ics".toList).head? = some '/' ∧ (∀ c ∈ "/u/c/a;b+c.ics".toList, c ≠ '?' ∧ c ≠ '#' ∧ removed c = false) := by decide
 
 end UrlSplit
+
+/-! ### is the Destination on this server?  (`get_server_netloc`, model RadicaleModel/Netloc.lean) -/
+
+section Netloc
+open Radicale.UrlSplit Radicale.Netloc
+
+/-- **behind a reverse proxy**: the proxy passes the host the client used in `X-Forwarded-Host` (and the scheme in
+    `X-Forwarded-Proto` or not at all) and no `X-Forwarded-Port`; a Destination on that host with that scheme is this
+    server — whatever `Host`, SERVER_NAME and SERVER_PORT the proxy's own connection has (the code as repaired by F30) -/
+theorem proxied_destination_is_local (h p : Str) (hh : PlainHost h) (hp : p.head? = some '/') (hpr : ∀ c ∈ p, removed c = false)
+    (httpHost serverName scheme port : Str) :
+    verdict true ⟨h, [], none, httpHost, serverName, scheme, port⟩ (httpPrefix ++ (h ++ p)) = .local ∧
+    verdict true ⟨h, Netloc.http, none, httpHost, serverName, scheme, port⟩ (httpPrefix ++ (h ++ p)) = .local ∧
+    verdict true ⟨h, Netloc.https, none, httpHost, serverName, scheme, port⟩ (httpsPrefix ++ (h ++ p)) = .local := by
+  obtain ⟨hne, hc⟩ := hh
+  have hd := dest_http h p (fun c hm => ⟨(hc c hm).1, (hc c hm).2.1⟩) hp hpr
+  have hds := dest_https h p (fun c hm => ⟨(hc c hm).1, (hc c hm).2.1⟩) hp hpr
+  have hpm := portMissing_plain h (fun c hm => (hc c hm).2.2)
+  have hhp := hasPort_false h (fun c hm => (hc c hm).2.2)
+  have hne' : (h != []) = true := by simpa using hne
+  refine ⟨?_, ?_, ?_⟩
+  · simp [verdict, serverNetloc, destNetloc, hd.1, hd.2, hpm, hhp, hne', Netloc.http, Netloc.https, defaultPort]
+  · simp [verdict, serverNetloc, destNetloc, hd.1, hd.2, hpm, hhp, hne', Netloc.http, Netloc.https, defaultPort]
+  · simp [verdict, serverNetloc, destNetloc, hds.1, hds.2, hpm, hhp, hne', Netloc.http, Netloc.https, defaultPort]
+
+/-- **without a proxy**: the client addressed the server as `Host: h` on the scheme's default port; a Destination on
+    `http://h/…` (resp. `https://h/…`) is this server -/
+theorem direct_destination_is_local (h p : Str) (hh : PlainHost h) (hp : p.head? = some '/') (hpr : ∀ c ∈ p, removed c = false)
+    (serverName : Str) (xfPort : Option Str) (xfProto : Str) :
+    verdict true ⟨[], xfProto, xfPort, h, serverName, Netloc.http, ['8', '0']⟩ (httpPrefix ++ (h ++ p)) = .local ∧
+    verdict true ⟨[], xfProto, xfPort, h, serverName, Netloc.https, ['4', '4', '3']⟩ (httpsPrefix ++ (h ++ p)) = .local := by
+  obtain ⟨hne, hc⟩ := hh
+  have hd := dest_http h p (fun c hm => ⟨(hc c hm).1, (hc c hm).2.1⟩) hp hpr
+  have hds := dest_https h p (fun c hm => ⟨(hc c hm).1, (hc c hm).2.1⟩) hp hpr
+  have hpm := portMissing_plain h (fun c hm => (hc c hm).2.2)
+  have hhp := hasPort_false h (fun c hm => (hc c hm).2.2)
+  have hne' : (h != []) = true := by simpa using hne
+  refine ⟨?_, ?_⟩
+  · simp [verdict, serverNetloc, destNetloc, hd.1, hd.2, hpm, hhp, hne', Netloc.http, Netloc.https, defaultPort]
+  · simp [verdict, serverNetloc, destNetloc, hds.1, hds.2, hpm, hhp, hne', Netloc.http, Netloc.https, defaultPort]
+
+/-- Finding F30 as a theorem: before the fix every MOVE through a proxy that sends `X-Forwarded-Host` without
+    `X-Forwarded-Port` ended in a KeyError (status 500), wherever the Destination pointed -/
+theorem f30_forwarded_host_without_port_failed (h : Str) (hne : h ≠ []) (xfProto httpHost serverName scheme port dest : Str) :
+    verdict false ⟨h, xfProto, none, httpHost, serverName, scheme, port⟩ dest = .error := by
+  have hne' : (h != []) = true := by simpa using hne
+  simp [verdict, serverNetloc, hne']
+
+-- non-vacuity and the other verdicts: another host is remote; an explicit port is compared as written
+example : PlainHost "cal.example.org".toList := by
+  refine ⟨by decide, ?_⟩; decide
+example : verdict true ⟨[], [], none, "a.example".toList, [], Netloc.http, "80".toList⟩ "http://b.example/u/c/x.ics".toList = .remote := by
+  decide +kernel
+example : verdict true ⟨[], [], none, "a.example:5232".toList, [], Netloc.http, "5232".toList⟩ "http://a.example:5232/u/c/x.ics".toList = .local := by
+  decide +kernel
+
+end Netloc
 
 /-- sanitised paths are fixed points of `sanitize_path` (used above; also a C06 fact) -/
 theorem sanitize_idempotent (p : Str) : sanitize (sanitize p) = sanitize p := sanitize_idem p
